@@ -46,6 +46,8 @@ def _case(draw, kind, n_min=1, n_max=4, near_copies=False):
     m["route"] = route
     if near_copies:
         m["near_copies"] = True
+    m["api_container"] = draw(st.sampled_from(["list", "list", "tuple", "iterator", "generator"]))
+    m["extra_density_keys"] = draw(st.integers(0, 2)) == 0
     return m
 
 
@@ -234,7 +236,10 @@ def check_case(m):
         elif route == "potable":
             out = libroute.write_text(libroute.read_text(ctx))
         else:
-            pairs, eams = eamtab.api_objects(m)
+            pairs, eams = eamtab.api_objects(m, container=m.get("api_container"), extra_keys=bool(m.get("extra_density_keys")))
+            cls.append("pair_potentials_as:" + (m.get("api_container") or "list"))
+            if fs and m.get("extra_density_keys"):
+                cls.append("density_dictionary_with_foreign_key")
             fp = io.StringIO()
             g = m["grid"]
             if route == "function":
